@@ -54,11 +54,13 @@ func genReach(t *rapid.T, kinds []string) ReachCase {
 	stride := rapid.OneOf(rapid.SampledFrom([]int{0, 2, 3, 7, 16, 50, 63, 64, 65, 100, 128, 257, 1000}), rapid.IntRange(0, n))
 	opGen := rapid.Custom(func(t *rapid.T) ReachOp {
 		op := ReachOp{From: from.Draw(t, "from"), N: cnt.Draw(t, "n")}
-		hi := 13
+		hi := 15
 		if isMap {
 			hi = 19
 		}
 		switch k := rapid.IntRange(0, hi).Draw(t, "kind"); {
+		case k >= 14 && !isMap:
+			op = genFlight(t, op.From)
 		case k <= 3:
 			op.K = RAdd
 		case k <= 7:
@@ -84,7 +86,11 @@ func genReach(t *rapid.T, kinds []string) ReachCase {
 		return op
 	})
 	var ops []ReachOp
-	switch rapid.IntRange(0, 3).Draw(t, "scenario") {
+	nScen := 3
+	if !isMap {
+		nScen = 4
+	}
+	switch rapid.IntRange(0, nScen).Draw(t, "scenario") {
 	case 0:
 	case 1, 2: // fill, thin out
 		ops = append(ops, ReachOp{K: RAdd, N: n})
@@ -92,12 +98,33 @@ func genReach(t *rapid.T, kinds []string) ReachCase {
 			ops = append(ops, ReachOp{K: RIters, N: rapid.IntRange(1, MaxReachIters).Draw(t, "its"), Stride: rapid.IntRange(0, n/4).Draw(t, "spacing")})
 		}
 		ops = append(ops, ReachOp{K: RThin, N: n, Stride: stride.Draw(t, "stride"), Off: rapid.IntRange(0, 70).Draw(t, "off"), Rev: rapid.Bool().Draw(t, "rev")})
-	default: // fill, clear, use again
+	case 3: // fill, clear, use again
 		ops = append(ops, ReachOp{K: RAdd, N: n}, ReachOp{K: RClear}, ReachOp{K: RAdd, N: rapid.IntRange(0, min(n, 5)).Draw(t, "again")})
+	default: // caches: some residents, then creations that are overtaken by Remove / Clear while they are in flight
+		ops = append(ops, ReachOp{K: RAdd, N: cnt.Draw(t, "residents")}, genFlight(t, from.Draw(t, "from")))
 	}
 	ops = append(ops, rapid.SliceOfN(opGen, 0, 8).Draw(t, "ops")...)
+	// the way the history ends before the container is left idle and measured: as drawn, or with a removal (caches at capacity:
+	// an eviction) followed by exactly one more insertion, or with removals only
+	switch rapid.IntRange(0, 3).Draw(t, "ending") {
+	case 0:
+		ops = append(ops, ReachOp{K: RTake, From: from.Draw(t, "from"), N: rapid.IntRange(1, 3).Draw(t, "takeN")}, ReachOp{K: RPut, From: from.Draw(t, "from"), N: 1})
+	case 1:
+		ops = append(ops, ReachOp{K: RPut, From: from.Draw(t, "from"), N: rapid.IntRange(1, 3).Draw(t, "putN")}, ReachOp{K: RPut, From: from.Draw(t, "from"), N: 1})
+	case 2:
+		ops = append(ops, ReachOp{K: RTake, From: from.Draw(t, "from"), N: rapid.IntRange(1, MaxTake).Draw(t, "takeN")})
+	}
 	c.Ops = ops
 	return c
+}
+
+// genFlight draws an RFlight op: 1..3 or 9..MaxFlights creations, overtaken by Remove or by Clear, all failing or every 2nd/3rd succeeding.
+func genFlight(t *rapid.T, from int) ReachOp {
+	return ReachOp{K: RFlight, From: from,
+		N:      rapid.OneOf(rapid.IntRange(1, 3), rapid.IntRange(ReachSlack+1, MaxFlights)).Draw(t, "flights"),
+		Stride: rapid.SampledFrom([]int{0, 0, 2, 3}).Draw(t, "everyNthSucceeds"),
+		Off:    rapid.IntRange(0, 2).Draw(t, "off"),
+		Rev:    rapid.Bool().Draw(t, "overtakenByClear")}
 }
 
 func reachTest(t *testing.T, test string, kinds []string) {
@@ -106,8 +133,8 @@ func reachTest(t *testing.T, test string, kinds []string) {
 	ReachMinCycles = vstat.EnvInt("VERIF_REACH_MINCYCLES", 1)
 	reachMax, reachMaxOpen = [nRoles]int{}, [nRoles]int{}
 	defer func() {
-		t.Logf("most objects of removed entries (keys, values, primary keys) still reachable at the end of a measurement: %v with every iterator closed, %v with up to %d open; bound %d + open iterators",
-			reachMax, reachMaxOpen, MaxReachIters, ReachSlack)
+		t.Logf("most objects of removed entries (keys, values, primary keys) still reachable at the end of a measurement: %v with every iterator closed, %v with up to %d open; bound %v + open iterators",
+			reachMax, reachMaxOpen, MaxReachIters, reachSlack)
 	}()
 	rapid.Check(t, func(t *rapid.T) {
 		c := genReach(t, kinds)
